@@ -176,7 +176,7 @@ BY_EXPR = {
     "a or b": [_v("or", "a or b", AB, _c(0, 1), "1", "bool", "pairs"),
                _v("or", "a or b or c", AB + [("c", "bool")], _c(0, 1, 2), "1", "bool", "triples")],
     "x.arctan2(y)": [_v("arctan2", "x.arctan2(y)", XY, _c(0, 1), "3", "num", "tpairs")],
-    "y.around(2)": [_v("around", f"x.around({k})", X, [("c", 0), ("k", V(k))], "2", "num", "rounding") for k in (2, 0, 1)],
+    "y.around(2)": [_v("around", f"x.around({k})", X, [("c", 0), ("k", V(k))], "2", "num", "rounding") for k in (2, 0, 1, -1)],
     "y.as_int64()": [_v("as_int64", "x.as_int64()", X, _c(0), "2", "num", "single_nonnull"),
                      _v("as_int64", "m.as_int64()", [("m", "int")], _c(0), "2", "num", "single_nonnull", intargs=True)],
     "y.as_str()": [_v("as_str", "x.as_str()", X, _c(0), "3", "str", "single"),
@@ -711,7 +711,9 @@ def ref_scalar(op, args):
                 return outnum(x)
             return outnum(max(x, y) if op == "fmax" else min(x, y))
         if op == "around":
-            if y is None or y.denominator != 1 or y < 0:
+            # "given number of decimals": a negative whole number rounds to tens, hundreds, … (numpy.around, which the
+            # docstrings name as the reference); the kernel-checked DocSem.around covers decimals >= 0 only
+            if y is None or y.denominator != 1:
                 return UNDEF
             if x is None:
                 return SILENT
